@@ -112,6 +112,7 @@ def baseline_typing(req):
     g = boot.load()
     w = World(Scheduler(1), embed="stub")
     w.attach_limit = 10 ** 9
+    w.draw_limit = 10 ** 9
     w.simfs = simfs.SimFS(w, os.path.join(os.path.dirname(g.__file__), "data"))
     with w:
         obj = g.Molecule(req["text"])
@@ -159,6 +160,7 @@ def _execute_one(spec):
     c10._ensure_server()
     world = World(Scheduler(1), embed="stub")
     world.attach_limit = 10 ** 9
+    world.draw_limit = 10 ** 9
     data_dir = os.path.join(os.path.dirname(g.__file__), "data")
     fs = simfs.SimFS(world, data_dir)
     fs.faults = {int(k): v for k, v in spec["faults"].items()}
